@@ -85,6 +85,20 @@ func c09Events() []Ev {
 			Ev{Name: "poolsend(A.p,3->" + t.Name + ")", Build: func(v View) (sdk.Msg, string) {
 				return vtypes.NewMsgSendToVestingAccount(harness.AddrS("A"), to, "p", sdk.NewInt(3), true), "A"
 			}},
+			// amounts whose vesting part is empty (0, and 1 with free 0.5): degenerate requests are where guards get skipped
+			Ev{Name: "poolsend(A.p,0->" + t.Name + ")", Build: func(v View) (sdk.Msg, string) {
+				return vtypes.NewMsgSendToVestingAccount(harness.AddrS("A"), to, "p", sdk.NewInt(0), false), "A"
+			}},
+			Ev{Name: "poolsend(A.p,1->" + t.Name + ")", Build: func(v View) (sdk.Msg, string) {
+				return vtypes.NewMsgSendToVestingAccount(harness.AddrS("A"), to, "p", sdk.NewInt(1), true), "A"
+			}},
+			Ev{Name: "createVA(A->" + t.Name + ",no coins)", Build: func(v View) (sdk.Msg, string) {
+				now := v.Ctx.BlockTime().Unix()
+				return vtypes.NewMsgCreateVestingAccount(harness.AddrS("A"), to, sdk.Coins{}, now, now), "A"
+			}},
+			Ev{Name: "movedenoms(V,nosuch->" + t.Name + ")", Build: func(v View) (sdk.Msg, string) {
+				return vtypes.NewMsgMoveAvailableVestingByDenoms(harness.AddrS("V"), to, []string{"nosuchdenom"}), "V"
+			}},
 			Ev{Name: "createVA(A->" + t.Name + ")", Build: func(v View) (sdk.Msg, string) {
 				now := v.Ctx.BlockTime().Unix()
 				return vtypes.NewMsgCreateVestingAccount(harness.AddrS("A"), to, coins(4), now, now+100), "A"
